@@ -83,6 +83,57 @@ class M:
         raise Untranslatable("condition " + ast.dump(node)[:160])
 
 
+def pure_b(node, names):
+    """guard conditions of the BinaryOp block: comparisons of left/right with constants, tests on exprnode.op;
+    no partial operation may occur -> a plain Gallina bool"""
+    def z(n):
+        if isinstance(n, ast.Constant) and isinstance(n.value, int) and not isinstance(n.value, bool):
+            return "(%d)" % n.value
+        if isinstance(n, ast.Name) and n.id in names:
+            return names[n.id]
+        if isinstance(n, ast.UnaryOp) and isinstance(n.op, ast.USub):
+            return "(Z.opp %s)" % z(n.operand)
+        raise Untranslatable("guard operand " + ast.dump(n)[:120])
+
+    def is_op(n):
+        return py2coq.shape(n) == py2coq.shape(ast.parse("exprnode.op", mode="eval").body)
+
+    if isinstance(node, ast.BoolOp):
+        f = "andb" if isinstance(node.op, ast.And) else "orb"
+        out = pure_b(node.values[0], names)
+        for v in node.values[1:]:
+            out = "(%s %s %s)" % (f, out, pure_b(v, names))
+        return out
+    if isinstance(node, ast.UnaryOp) and isinstance(node.op, ast.Not):
+        return "(negb %s)" % pure_b(node.operand, names)
+    if isinstance(node, ast.Compare):
+        if len(node.ops) == 1 and is_op(node.left):
+            c = node.comparators[0]
+            if isinstance(node.ops[0], ast.Eq) and isinstance(c, ast.Constant) and isinstance(c.value, str):
+                return "(String.eqb op %s)" % coq_string(c.value)
+            if isinstance(node.ops[0], ast.In) and isinstance(c, (ast.Tuple, ast.List)) and c.elts and all(
+                    isinstance(e, ast.Constant) and isinstance(e.value, str) for e in c.elts):
+                out = "(String.eqb op %s)" % coq_string(c.elts[0].value)
+                for e in c.elts[1:]:
+                    out = "(orb %s (String.eqb op %s))" % (out, coq_string(e.value))
+                return out
+            raise Untranslatable("guard test on exprnode.op")
+        parts, left = [], node.left
+        for op, right in zip(node.ops, node.comparators):
+            if type(op) in CMP:
+                parts.append("(%s %s %s)" % (CMP[type(op)], z(left), z(right)))
+            elif isinstance(op, ast.NotEq):
+                parts.append("(negb (Z.eqb %s %s))" % (z(left), z(right)))
+            else:
+                raise Untranslatable("guard comparison")
+            left = right
+        out = parts[0]
+        for q in parts[1:]:
+            out = "(andb %s %s)" % (out, q)
+        return out
+    raise Untranslatable("guard " + ast.dump(node)[:120])
+
+
 def exn_of_raise(stmt):
     if not isinstance(stmt, ast.Raise) or stmt.exc is None:
         raise Untranslatable("raise form")
@@ -217,9 +268,15 @@ def translate(repo, record=False):
                     raise Untranslatable("two BinaryOp blocks")
                 b = s.body
                 want = ["left = self._parse_constant(exprnode.left)", "right = self._parse_constant(exprnode.right)"]
-                if len(b) != 3 or [py2coq.shape(x) for x in b[:2]] != [py2coq.shape(ast.parse(w).body[0]) for w in want]:
+                if len(b) < 3 or [py2coq.shape(x) for x in b[:2]] != [py2coq.shape(ast.parse(w).body[0]) for w in want]:
                     raise Untranslatable("BinaryOp block: operands are not evaluated as left, right first")
-                chain, node = [], b[2]
+                # optional guards `if COND: raise E(...)` between the operands and the dispatch
+                guards = []
+                for g in b[2:-1]:
+                    if not (isinstance(g, ast.If) and not g.orelse and len(g.body) == 1 and isinstance(g.body[0], ast.Raise)):
+                        raise Untranslatable("BinaryOp block: unexpected statement before the dispatch")
+                    guards.append((pure_b(g.test, {"left": "left", "right": "right"}), exn_of_raise(g.body[0])))
+                chain, node = [], b[-1]
                 m = M({"left": "left", "right": "right"}, {"self._c_div": "c_div"})
                 while True:
                     if not isinstance(node, ast.If):
@@ -236,6 +293,7 @@ def translate(repo, record=False):
                 binary = chain
                 continue
         other.append(s)
+    binary_guards = guards if binary is not None else []
     if binary is None or not unary:
         raise Untranslatable("operator dispatch not found")
     shapes["parse_constant_rest"] = sha(other)          # Constant branch, ID branches, final raise (hand model)
@@ -269,8 +327,10 @@ def translate(repo, record=False):
             if rec.get(k) != shapes[k]:
                 raise Untranslatable("hand-modelled code changed: %s" % k)
 
-    def chain_text(name, params, entries, wrap):
+    def chain_text(name, params, entries, wrap, pre=()):
         out = "Definition %s (op : string) %s :=\n" % (name, params)
+        for cond, exn in pre:
+            out += "  if %s then Some (Err %s) else\n" % (cond, exn)
         for op, term in entries:
             out += "  if String.eqb op %s then Some %s else\n" % (coq_string(op), wrap(term))
         return out + "  None.\n"
@@ -282,7 +342,7 @@ def translate(repo, record=False):
             "Definition c_div (a b : Z) : res Z :=\n  %s.\n\n" % c_div)
     text += "(* None: no branch of _parse_constant handles this operator (falls through to the final raise) *)\n"
     text += chain_text("unop", ": option (Z -> res Z)", unary, lambda t: "(fun v : Z => %s)" % t) + "\n"
-    text += chain_text("binop", "(left right : Z) : option (res Z)", binary, lambda t: t) + "\n"
+    text += chain_text("binop", "(left right : Z) : option (res Z)", binary, lambda t: t, binary_guards) + "\n"
     text += "Definition simple_escapes : list (N * Z) :=\n  [%s].\n" % "; ".join("(%d%%N, %d)" % kv for kv in table)
     return text
 
